@@ -492,6 +492,9 @@ func (e *Engine) execReturn(s *ast.ReturnStmt, st *State) *State {
 	return nil
 }
 
+// rangeWidthKey holds, inside a range-over-string body, the byte width of the current rune (spec helper rangeWidth()).
+var rangeWidthKey = &synth{"rangeWidth"}
+
 // inScope reports whether every local variable mentioned by x has a value in st.
 func (e *Engine) inScope(x ast.Expr, st *State) bool {
 	ok := true
@@ -1364,9 +1367,6 @@ func (e *Engine) execRange(s *ast.RangeStmt, st *State, label string) *State {
 		}
 	}
 	e.assumeInvariants(head, ls)
-	if ls != nil {
-		e.hints(head, ls.Hints)
-	}
 	cond := e.lt(hk, length)
 	body := head.clone()
 	body.pc = and(head.pc, cond)
@@ -1409,10 +1409,33 @@ func (e *Engine) execRange(s *ast.RangeStmt, st *State, label string) *State {
 					implies(sx(">=", r, "2048"), sx(">=", size, "3")), implies(sx("<", r, "2048"), sx("<=", size, "2")),
 					implies(and(sx("<", r, "65536"), not(eq(r, "65533"))), sx("<=", size, "3")), implies(sx(">=", r, "65536"), eq(size, "4")),
 					implies(and(eq(r, "65533"), sx("<", size, "3")), eq(size, "1")))))
-			e.stubsUsed["range over string: utf8 decoding facts (size 1..4 <= remaining; ASCII iff single byte < 0x80; size consistent with rune magnitude; RuneError has size 1 or 3)"] = true
+			if !e.bv {
+				// the exact decoding (Go spec "For statements with range clause" + unicode/utf8): shortest-form sequences
+				// of 2..4 bytes outside the surrogate range decode to their code point; anything else is U+FFFD of width 1
+				bAt := func(d int) string {
+					return sx("select", sx("s_arr", coll.T), sx("+", sx("s_off", coll.T), hk, fmt.Sprint(d)))
+				}
+				b1, b2, b3 := bAt(1), bAt(2), bAt(3)
+				in := func(x string, lo, hi int) string {
+					return and(sx("<=", fmt.Sprint(lo), x), sx("<=", x, fmt.Sprint(hi)))
+				}
+				cont := func(x string) string { return in(x, 128, 191) }
+				v2 := and(in(b0, 194, 223), sx(">=", rem, "2"), cont(b1))
+				acc3 := ite(eq(b0, "224"), in(b1, 160, 191), ite(eq(b0, "237"), in(b1, 128, 159), cont(b1)))
+				v3 := and(in(b0, 224, 239), sx(">=", rem, "3"), acc3, cont(b2))
+				acc4 := ite(eq(b0, "240"), in(b1, 144, 191), ite(eq(b0, "244"), in(b1, 128, 143), cont(b1)))
+				v4 := and(in(b0, 240, 244), sx(">=", rem, "4"), acc4, cont(b2), cont(b3))
+				f2 := sx("+", sx("*", "64", sx("-", b0, "192")), sx("-", b1, "128"))
+				f3 := sx("+", sx("*", "4096", sx("-", b0, "224")), sx("*", "64", sx("-", b1, "128")), sx("-", b2, "128"))
+				f4 := sx("+", sx("*", "262144", sx("-", b0, "240")), sx("*", "4096", sx("-", b1, "128")), sx("*", "64", sx("-", b2, "128")), sx("-", b3, "128"))
+				e.assume(body.pc, eq(size, ite(sx("<", b0, "128"), "1", ite(v2, "2", ite(v3, "3", ite(v4, "4", "1"))))))
+				e.assume(body.pc, eq(r, ite(sx("<", b0, "128"), b0, ite(v2, f2, ite(v3, f3, ite(v4, f4, "65533"))))))
+			}
+			e.stubsUsed["range over string: utf8 decoding (exact: shortest-form 1..4 byte sequences outside the surrogates decode to their code point, anything else is U+FFFD of width 1)"] = true
 			if valObj != nil {
 				e.declVar(body, valObj, Value{r, types.Typ[types.Rune]})
 			}
+			body.vars[rangeWidthKey] = Value{size, types.Typ[types.Int]}
 			next = e.add(hk, size)
 		} else if keyObj != nil {
 			// range over int: key typed as the int type
@@ -1428,6 +1451,10 @@ func (e *Engine) execRange(s *ast.RangeStmt, st *State, label string) *State {
 		if valObj != nil {
 			e.declVar(body, valObj, vv)
 		}
+	}
+	if ls != nil {
+		// range loops: the seeds may mention the iteration's variables (and rangeWidth()), so they are evaluated in the body
+		e.hints(body, ls.Hints)
 	}
 	e.evalCases(ls, body)
 	lf := e.pushLoop(label, true)
